@@ -62,6 +62,9 @@ class PGen:
             lambda: ["bin", "*", ["bin", "==", p(), 1], 3], lambda: ["bin", "+", ["bin", ">", p(), 1], ["bin", "<=", p(), 2]], lambda: ["bin", "&", ["bin", "+", p(), ["this", "_params", "k"]], 7],
             lambda: ["this", "_params", "k"], lambda: ["bin", "%", ["bin", "-", 0, p()], 3], lambda: ["bin", "*", ["bin", "==", ["this", "s"], "ab"], 2],
             lambda: ["bin", "-", ["bin", "*", 2, 3], ["bin", "&", p(), 3]],
+            # the direction flags every scope carries (parsing / building / sizing) steering a length
+            lambda: ["bin", "+", ["this", r.choice(["_building", "_parsing", "_sizing"])], 1], lambda: ["bin", "+", ["bin", "*", ["this", "_building"], 2], ["this", "_parsing"]],
+            lambda: ["bin", "&", ["bin", "+", p(), ["this", r.choice(["_building", "_parsing"])]], 3],
         ]
         return r.choice(forms)()
 
@@ -77,7 +80,8 @@ class PGen:
             lambda: ["bin", "&", ["bin", ">", p(), 0], ["bin", "<", p(), 3]], lambda: ["bin", "|", ["bin", "==", p(), 0], ["this", "f"]],
             lambda: ["bin", "==", ["bin", "%", p(), 2], 0], lambda: ["bin", ">=", ["bin", "/", p(), 2], 1], lambda: ["bin", "==", ["un", "-", p()], -1],
             lambda: ["bin", "==", ["fn", "len", ["this", "s"]], 2], lambda: ["bin", ">", ["this", "_params", "k"], p()], lambda: True, lambda: False, lambda: ["bin", "&", p(), 1],
-            lambda: p(),
+            lambda: p(), lambda: ["this", r.choice(["_building", "_parsing", "_sizing"])], lambda: ["un", "~", ["this", r.choice(["_building", "_parsing"])]],
+            lambda: ["bin", "&", ["this", "_building"], ["bin", ">", p(), 0]],
         ]
         return r.choice(forms)()
 
